@@ -187,7 +187,7 @@ func zzHtHashOf(id int, uni, res []Value) uint32 {
 //
 //verif:unwind 200
 func zzH12_history_empty() {
-	zzHtHistory(0, zzParam("fresh", 2, 3), 0, zzParam("ops", 3, 5), false)
+	zzHtHistory(0, zzParam("fresh", 2, 3), 0, zzParam("ops", 3, 4), false)
 }
 
 // zzH12_history_full: histories from a full single bucket with a triple collision
@@ -195,5 +195,39 @@ func zzH12_history_empty() {
 //
 //verif:unwind 200
 func zzH12_history_full() {
-	zzHtHistory(1, zzParam("fresh", 2, 2), zzParam("residents", 1, 2), zzParam("ops", 3, 4), false)
+	zzHtHistory(1, zzParam("fresh", 2, 2), zzParam("residents", 1, 1), zzParam("ops", 3, 4), false)
+}
+
+// zzH12_history_badkeys: histories that also use an unhashable key and a key whose
+// comparison fails (error returned, table unchanged), from a small colliding table.
+//
+//verif:unwind 200
+func zzH12_history_badkeys() {
+	zzHtHistory(6, 1, 1, zzParam("ops", 3, 4), true)
+}
+
+// zzH12_history_free1: 7 residents with five distinct hashes, one free slot.
+//
+//verif:thorough
+//verif:unwind 200
+func zzH12_history_free1() {
+	zzHtHistory(2, 2, 1, zzParam("ops", 3, 3), false)
+}
+
+// zzH12_history_chain: 12 residents in one chain of two buckets; the second new
+// key makes the table grow 2->4.
+//
+//verif:thorough
+//verif:unwind 200
+func zzH12_history_chain() {
+	zzHtHistory(5, 2, 2, zzParam("ops", 3, 3), false)
+}
+
+// zzH12_history_mixed: 8 residents over both chains-to-be, slot order different from
+// list order.
+//
+//verif:thorough
+//verif:unwind 200
+func zzH12_history_mixed() {
+	zzHtHistory(4, 2, 1, zzParam("ops", 3, 3), false)
 }
